@@ -5,9 +5,10 @@
 
    Sources (winterfell /repo):
      verifier/src/lib.rs        verify, perform_verification (order of checks, error of each)
-     verifier/src/evaluator.rs  evaluate_constraints (main and auxiliary segment; the Lagrange-kernel part is not modelled)
+     verifier/src/evaluator.rs  evaluate_constraints (main and auxiliary segment, Lagrange kernel constraints)
      verifier/src/composer.rs   DeepComposer::{compose_trace_columns, compose_constraint_evaluations,
-                                combine_compositions} (main and auxiliary segment, no Lagrange-kernel column)
+                                combine_compositions} (main and auxiliary segment, Lagrange kernel column)
+     air/src/air/lagrange/*     through C16's Model/EnforceLagrange.v (lag_new, lag_evaluate_and_combine, lag_boundary_evaluate_at)
      air/src/air/divisor.rs     ConstraintDivisor::{from_transition, from_assertion, evaluate_at}
      air/src/air/boundary/{constraint.rs,constraint_group.rs}  evaluate_at
      air/src/air/transition/mod.rs  combine_evaluations
@@ -20,6 +21,8 @@
    to C10 / C04 / C05).  No proofs here. *)
 From Coq Require Import List Arith Bool ZArith.
 From VBase Require Import FieldOps.
+(* round 5: the Lagrange kernel constraints are C16's model of air/src/air/lagrange/* (qualified names only) *)
+From VModel Require EnforceLagrange.
 Import ListNotations.
 
 Section Poly.
@@ -184,7 +187,19 @@ Section Verifier.
     air_periodic : list (list F);     (* get_periodic_column_polys *)
     air_groups : list BGroup;         (* main boundary constraint groups, in the order of get_boundary_constraints *)
     air_nt_main : nat;                (* context.main_transition_constraint_degrees.len() *)
-    air_aux_groups : list BGroup      (* auxiliary boundary constraint groups, same order *)
+    air_aux_groups : list BGroup;     (* auxiliary boundary constraint groups, same order *)
+    air_lagrange : option nat         (* context.lagrange_kernel_aux_column_idx() *)
+  }.
+
+  (* Lagrange kernel column (round 5).  The random elements come out of the user's GkrVerifier::verify (outside the
+     library: its verdict is the parameter e_gkr_ok below, its output is recorded here); the coefficients are drawn AFTER
+     the ordinary transition / boundary coefficients (get_constraint_composition_coefficients: log2(n) transition
+     coefficients, then one boundary coefficient) resp. after the DEEP coefficients of the trace and constraint columns *)
+  Record LagCoins := mkLagCoins {
+    lg_rands : list F;                       (* LagrangeKernelRandElements *)
+    lg_cc_trans : list F;                    (* LagrangeConstraintsCompositionCoefficients.transition *)
+    lg_cc_bnd : F;                           (* .boundary *)
+    lg_cc_deep : F                           (* DeepCompositionCoefficients.lagrange *)
   }.
 
   (* coin outputs, each list in the order in which the coin produced it *)
@@ -195,7 +210,8 @@ Section Verifier.
     c_z : F;                                 (* out-of-domain point *)
     cc_deep_trace : list F;                  (* DEEP coefficients of the trace columns: main first, then auxiliary *)
     cc_deep_cons : list F;                   (* DEEP coefficients of the constraint composition columns *)
-    c_xs : list F                            (* x coordinates of the (sorted, deduplicated) query positions *)
+    c_xs : list F;                           (* x coordinates of the (sorted, deduplicated) query positions *)
+    c_lagrange : option LagCoins             (* Some iff the AIR declares a Lagrange kernel column *)
   }.
 
   (* the auxiliary segment of a parsed proof: OOD frame of the auxiliary columns and the opened auxiliary rows *)
@@ -209,7 +225,10 @@ Section Verifier.
     p_ood_evals : list F;                    (* H_i(z) *)
     p_q_trace : list (list F);               (* opened main trace rows, one per query position *)
     p_q_cons : list (list F);                (* opened composition-column rows *)
-    p_aux : option AuxOpen                   (* Some iff the trace is multi-segment (aux_frame / queried_aux_trace_states) *)
+    p_aux : option AuxOpen;                  (* Some iff the trace is multi-segment (aux_frame / queried_aux_trace_states);
+                                                with a Lagrange kernel column the OOD frame ax_cur / ax_next holds the auxiliary
+                                                columns WITHOUT it (OodFrame::parse), the opened rows ax_rows hold all of them *)
+    p_lagrange : option (list F)             (* TraceOodFrame::lagrange_kernel_frame: c(z), c(g z), c(g^2 z), c(g^4 z), .. *)
   }.
 
   (* evaluator.rs *)
@@ -260,8 +279,32 @@ Section Verifier.
         main +f eval_groups (air_g A) (air_aux_groups A) (skipn (groups_size (air_groups A)) (cc_bnd C)) (ax_cur ax) (c_z C)
     end.
 
-  Definition evaluate_constraints (A : AirDesc) (C : Coins) (P : ProofObj) : F :=
-    eval_transition_part A C P +f eval_boundary_part A C P.
+  (* 3 ----- Lagrange kernel constraints (evaluator.rs): only when the proof carries a Lagrange frame;
+     lagrange_constraints.transition.evaluate_and_combine(frame, rands, x) + lagrange_constraints.boundary.evaluate_at(x, frame).
+     [mk] builds the transition constraints from their coefficients: LagrangeKernelTransitionConstraints::new = C16's lag_new.
+     A None of C16's model is a Rust panic (frame / random elements / coefficients of inconsistent lengths, > 64 coefficients):
+     no verdict of verify(); the value is then zero here and the theorems about it assume consistent lengths. *)
+  Definition eval_lagrange_part_gen (mk : list F -> option (EnforceLagrange.LagTC (F := F)))
+                                    (A : AirDesc) (C : Coins) (P : ProofObj) : F :=
+    match p_lagrange P, c_lagrange C with
+    | Some fr, Some lc =>
+        match mk (lg_cc_trans lc) with
+        | Some t =>
+            match EnforceLagrange.lag_evaluate_and_combine O t fr (lg_rands lc) (c_z C),
+                  EnforceLagrange.lag_boundary_evaluate_at O (lg_rands lc) fr (lg_cc_bnd lc) (c_z C) with
+            | Some a, Some b => a +f b
+            | _, _ => zero
+            end
+        | None => zero
+        end
+    | _, _ => zero
+    end.
+
+  Definition evaluate_constraints_gen (mk : list F -> option (EnforceLagrange.LagTC (F := F)))
+                                      (A : AirDesc) (C : Coins) (P : ProofObj) : F :=
+    eval_transition_part A C P +f eval_boundary_part A C P +f eval_lagrange_part_gen mk A C P.
+  Definition eval_lagrange_part : AirDesc -> Coins -> ProofObj -> F := eval_lagrange_part_gen (EnforceLagrange.lag_new O).
+  Definition evaluate_constraints : AirDesc -> Coins -> ProofObj -> F := evaluate_constraints_gen (EnforceLagrange.lag_new O).
 
   (* sum_i z^(i*n) * H_i(z) *)
   Fixpoint ood_reduce (n : nat) (z : F) (i : nat) (evals : list F) : F :=
@@ -314,11 +357,41 @@ Section Verifier.
   Definition aux_row_at (P : ProofObj) (q : nat) : option (list F) :=
     match p_aux P with Some ax => nth_error (ax_rows ax) q | None => None end.
 
+  (* Lagrange kernel column in compose_trace_columns.  The ordinary loop runs over `row[..lagrange_ker_col_idx]`; the
+     kernel column contributes  (T_l(x) - p_S(x)) * cc.lagrange / Z_S'(x)  to the common numerator, S = the points
+     z, z g, z g^2, z g^4, .. of the Lagrange frame, p_S the interpolant of the frame values on S (evaluated here by
+     Lagrange's formula: the value of polynom::eval(&polynom::interpolate(xs, ys), x)), Z_S' = prod over S without its
+     first two points (those are the common denominator (x - z)(x - z g)). *)
+  Fixpoint lag_points_go (z gexp : F) (fuel : nat) : list F :=
+    match fuel with 0 => [] | S f => z *f gexp :: lag_points_go z (gexp *f gexp) f end.
+  Definition lag_points (g z : F) (rows : nat) : list F := z :: lag_points_go z g (pred rows).
+  Fixpoint remove_at {A} (i : nat) (l : list A) : list A :=
+    match l, i with [], _ => [] | _ :: r, 0 => r | a :: r, S j => a :: remove_at j r end.
+  Definition interp_at (xs ys : list F) (x : F) : F :=
+    fsum O (map (fun iy =>
+                   let i := fst iy in
+                   let xi := nth i xs zero in
+                   snd iy *f fprod O (map (fun xj => (x -f xj) *f finv O (xi -f xj)) (remove_at i xs)))
+                (combine (seq 0 (length ys)) ys)).
+  Definition cut_aux_row (A : AirDesc) (arow : option (list F)) : option (list F) :=
+    match arow, air_lagrange A with Some ar, Some idx => Some (firstn idx ar) | _, _ => arow end.
+  Definition deep_lagrange_at (A : AirDesc) (C : Coins) (P : ProofObj) (zg : F) (arow : option (list F)) (x : F) : F :=
+    match p_aux P, arow, p_lagrange P, c_lagrange C, air_lagrange A with
+    | Some _, Some ar, Some fr, Some lc, Some idx =>
+        let xs := lag_points (air_g A) (c_z C) (length fr) in
+        (nth idx ar zero -f interp_at xs fr x) *f lg_cc_deep lc
+        *f finv O (fprod O (map (fun xj => x -f xj) (skipn 2 xs)))
+        *f finv O ((x -f c_z C) *f (x -f zg))
+    | _, _, _, _, _ => zero
+    end.
+
   Definition deep_evaluations (A : AirDesc) (C : Coins) (P : ProofObj) : list F :=
     let zg := c_z C *f air_g A in
     map (fun qrx =>
            let rx := snd qrx in
-           deep_trace_at C P zg (fst (fst rx)) (aux_row_at P (fst qrx)) (snd rx) +f deep_cons_at C P (snd (fst rx)) (snd rx))
+           let arow := aux_row_at P (fst qrx) in
+           deep_trace_at C P zg (fst (fst rx)) (cut_aux_row A arow) (snd rx) +f deep_lagrange_at A C P zg arow (snd rx)
+           +f deep_cons_at C P (snd (fst rx)) (snd rx))
         (combine (seq 0 (length (p_q_trace P))) (combine (combine (p_q_trace P) (p_q_cons P)) (c_xs C))).
 
   (* errors of verify(), in the order in which they can be raised *)
@@ -326,6 +399,7 @@ Section Verifier.
   | Accept
   | RejField          (* InconsistentBaseField *)
   | RejOptions        (* UnacceptableProofOptions *)
+  | RejGkr            (* GkrProofVerificationFailed (raised while the auxiliary random elements are built) *)
   | RejOod            (* InconsistentOodConstraintEvaluations *)
   | RejFriCommit      (* FriVerificationFailed raised by FriVerifier::new *)
   | RejPow            (* QuerySeedProofOfWorkVerificationFailed *)
@@ -345,6 +419,9 @@ Section Verifier.
   Record Env := mkEnv {
     e_modulus : Z;
     e_acceptable : list (list Z);
+    e_gkr_ok : bool;                         (* the user's GkrVerifier::verify on the GKR proof attached to the proof (the proof
+                                                deserialises exactly — no bytes left over — and verifies); only consulted when
+                                                the AIR declares a Lagrange kernel column *)
     e_fri_commit_ok : bool;
     e_pow_ok : bool;
     e_trace_auth : bool;                     (* MerkleTree::verify_batch of the trace openings, every segment *)
@@ -355,6 +432,7 @@ Section Verifier.
   Definition verify_model (E : Env) (A : AirDesc) (C : Coins) (P : ProofObj) : Verdict :=
     if negb (Z.eqb (e_modulus E) (p_modulus P)) then RejField
     else if negb (existsb (zlist_eqb (p_options P)) (e_acceptable E)) then RejOptions
+    else if match air_lagrange A with Some _ => negb (e_gkr_ok E) | None => false end then RejGkr
     else if negb (ood_equation_b A C P) then RejOod
     else if negb (e_fri_commit_ok E) then RejFriCommit
     else if negb (e_pow_ok E) then RejPow
@@ -397,6 +475,12 @@ Section Family.
            | _ => nth j anext (fzero O) -f (nth j acur (fzero O) +f r j *f nth (Nat.modulo j w) mcur (fzero O))
            end)
         (seq 0 aw).
+
+  (* the Lagrange family of harness/src/lagfam.rs (LagAir): one main column next = cur + 1, one declared auxiliary
+     transition constraint that is never written (stays zero) *)
+  Definition lagfam_trans (cur next pers : list F) : list F :=
+    [nth 0 next (fzero O) -f nth 0 cur (fzero O) -f fone O].
+  Definition lagfam_aux_trans (mcur mnext acur anext pers rands : list F) : list F := [fzero O].
 End Family.
 
 (* query x coordinates (DeepComposer::new) and the family's transition with periodic VALUES at a step
